@@ -138,12 +138,20 @@ theorem names_examples :
     NamesOk ff0 ex5 = true ∧ NamesOk ff0 ex6 = true ∧ NamesOk ff0 ex7 = true ∧ NamesOk ff0 ex8 = true ∧
     NamesOk ff0 ex9 = true ∧ NamesOk ff0 exKey = true := by decide
 
-/-- rejected: a global named `and`, a function named `print`, a key `$9x`, the index `.-3`, a global
+/-- accepted: identifiers with letters and digits of any script — `$é`, `$a.ñ1`, `f٣(x.é)` (U+0663 is a digit) -/
+example : NamesOk ff0 (.dataRef 0 [195, 169] .nil) = true := by decide +kernel
+example : NamesOk ff0 (.dataRef 0 [97] (.cons (.key 0 false [195, 177, 49]) .nil)) = true := by decide +kernel
+example : NamesOk ff0 (.func 0 [102, 217, 163] (.cons (.global 0 [120, 46, 195, 169]) .nil)) = true := by decide +kernel
+example : ∃ items, lexAll [36, 195, 169] true = .items items ∧ items.map Item.tk = [⟨.tDollarIdent, [36, 195, 169]⟩, errTk] :=
+  lex_print ff0 (.dataRef 0 [195, 169] .nil) (by decide +kernel)
+
+/-- rejected: a global named `and`, a function named `print`, a key `$9x`, a key `.1a` (an index token), the index `.-3`, a global
     with an empty segment `a..b`, the string spellings `'a'b'` and `'a\'` (both of which `unquoteString`
     accepts), the float spelling `NaN` -/
 example : NamesOk ff0 (.global 0 [97, 110, 100]) = false := by decide
 example : NamesOk ff0 (.func 0 [112, 114, 105, 110, 116] .nil) = false := by decide
 example : NamesOk ff0 (.dataRef 0 [57, 120] .nil) = false := by decide
+example : NamesOk ff0 (.dataRef 0 [97] (.cons (.key 0 false [49, 97]) .nil)) = false := by decide
 example : NamesOk ff0 (.dataRef 0 [97] (.cons (.index 0 false (-3)) .nil)) = false := by decide
 example : NamesOk ff0 (.global 0 [97, 46, 46, 98]) = false := by decide
 example : NamesOk ff0 (.str 0 [39, 97, 39, 98, 39] [97, 39, 98]) = false ∧
